@@ -95,8 +95,8 @@ Theorem C16_table_refines_map : forall pool tst ops,
 Proof. exact table_refines_map. Qed.
 Print Assumptions C16_table_refines_map.
 
-(* the guard of (7) is met by every pool of keys of the simple kinds (nil, t, fixnums, characters, strings,
-   symbols, vectors, lists) whose references are consistent: there the table (whose reported test is always eql) is
+(* the guard of (7) is met by every pool of keys of the simple kinds (nil, t, fixnums, bignums outside int64, ratios
+   with a denominator above 1 and a numerator below 2^62, characters, strings, symbols, vectors, lists) whose references are consistent: there the table (whose reported test is always eql) is
    a finite map under slip's eql, for every history. *)
 Theorem C16_simple_pool_ok : forall pool,
   simple_pool pool = true ->
@@ -141,12 +141,15 @@ Theorem C16_sxhash_bignum_ratio_refuted :
   hash_dom (r_obj w_rat) = false.
 Proof. exact sxhash_bignum_ratio_refuted. Qed.
 Print Assumptions C16_sxhash_bignum_ratio_refuted.
-Theorem C16_table_bignum_key_refuted :
-  t_run pool_big [] [HPut 0 1; HGet 1; HPut 1 2; HCount] = [OVal 1; OGet None; OVal 2; ONum 2] /\
-  s_run pool_big (pool_test 1 pool_big) [] [HPut 0 1; HGet 1; HPut 1 2; HCount] = [OVal 1; OGet (Some 1%Z); OVal 2; ONum 1] /\
-  pool_coherent pool_big (pool_test 1 pool_big) = false /\ pool_equiv pool_big (pool_test 1 pool_big) = true.
-Proof. exact table_bignum_key_refuted. Qed.
-Print Assumptions C16_table_bignum_key_refuted.
+(* bignum and ratio keys (findings C16-hash-bignum-key-by-pointer, C16-hash-ratio-key-by-pointer, repaired): two
+   separately allocated copies of one value are one key; the pool is inside the guard of (7) *)
+Theorem C16_table_bignum_key_by_value :
+  t_run pool_big [] ops_big =
+    [OVal 1; OGet (Some 1%Z); OVal 2; ONum 1; OVal 7; OGet (Some 7%Z); OGet None; OEntries [(0%nat, 2%Z); (2%nat, 7%Z)]; OBool true; ONum 1; OGet None] /\
+  s_run pool_big (pool_test 1 pool_big) [] ops_big = t_run pool_big [] ops_big /\
+  simple_pool pool_big = true /\ pool_ok pool_big (pool_test 1 pool_big) = true.
+Proof. exact table_bignum_key_by_value. Qed.
+Print Assumptions C16_table_bignum_key_by_value.
 Theorem C16_table_float_key_refuted :
   t_run pool_flt [] [HPut 0 1; HGet 1] = [OVal 1; OGet None] /\
   s_run pool_flt (pool_test 1 pool_flt) [] [HPut 0 1; HGet 1] = [OVal 1; OGet (Some 1%Z)] /\
